@@ -33,6 +33,7 @@ CONSTANTS MaxBlocks,      \* 1..3
           ExtraData,      \* BOOLEAN subset: add an untouched .data section whose word refers to the target symbol
           Retargets,      \* BOOLEAN subset: also retarget_symbol_uses(target symbol -> another block's symbol)
           AlignOpts,      \* subset of {0, 4, 16}: alignment aux data on the first block (0 = none)
+          Aliases,        \* BOOLEAN subset: the first two blocks carry a second start symbol (an alias)
           InsFns,         \* subset of {"none", "ret", "loop"}: register_insert_function("newfn", ..)
           Emit            \* BOOLEAN: print cases
 
@@ -114,14 +115,15 @@ MergeCfi(cs) ==
          <<sorted[k], FlattenSeq([i \in 1..Len(SelectSeq(cs, LAMBDA c : c[1] = sorted[k])) |->
                                      SelectSeq(cs, LAMBDA c : c[1] = sorted[k])[i][2]])>>]
 
-MkBlock(i, nb, tpl, tgtIdx, layout, endSym, annMode, annAt, cl0, noSym, al, ld) ==
+AName(i) == CASE i = 1 -> "a1" [] i = 2 -> "a2" [] OTHER -> "ax"
+MkBlock(i, nb, tpl, tgtIdx, layout, endSym, annMode, annAt, cl0, noSym, al, ld, alias) ==
   LET units == TemplateUnits(tpl, i, BName(tgtIdx))
       \* "proc_first" arrives here as "proc_each" for the first code block and "none" for the rest
       cl == cl0
       f == IF IsData(tpl) THEN "" ELSE FnOf(layout, i, nb)
   IN  [kind |-> IF IsData(tpl) THEN "data" ELSE "code",
        units |-> units,
-       syms |-> IF noSym THEN <<>> ELSE <<BName(i)>>,
+       syms |-> IF noSym THEN <<>> ELSE <<BName(i)>> \o (IF alias /\ i <= 2 THEN <<AName(i)>> ELSE <<>>),
        esyms |-> IF endSym THEN <<EName(i)>> ELSE <<>>,
        fn |-> f,
        entry |-> (f # "" /\ (f = BName(i) \/ (layout = "one2" /\ i = nb))),
@@ -138,7 +140,7 @@ MkBlock(i, nb, tpl, tgtIdx, layout, endSym, annMode, annAt, cl0, noSym, al, ld) 
 
 ShapeParams ==
   {p \in [nb : 1..MaxBlocks, tpl : [1..MaxBlocks -> Templates], tgt : 1..MaxBlocks,
-          layout : FnLayouts, es : SUBSET (1..MaxBlocks), ns : SUBSET (1..MaxBlocks), am : AnnModes, cl : CfiLayouts, al : AlignOpts, xd : ExtraData, dft : DropFnTables, ld : Leads, fmt : Fmts,
+          layout : FnLayouts, es : SUBSET (1..MaxBlocks), ns : SUBSET (1..MaxBlocks), am : AnnModes, cl : CfiLayouts, al : AlignOpts, xd : ExtraData, dft : DropFnTables, ld : Leads, fmt : Fmts, als : Aliases,
           annAt : (1..MaxBlocks) \X (0..3)] :
      /\ \A i \in (p.nb + 1)..MaxBlocks : p.tpl[i] = CHOOSE x \in Templates : TRUE
      /\ p.tgt <= p.nb
@@ -180,7 +182,7 @@ MkShape(p) ==
                                IF p.cl = "proc_first"
                                THEN (IF ~IsData(p.tpl[i]) /\ \A j \in 1..(i - 1) : IsData(p.tpl[j]) THEN "proc_each" ELSE "none")
                                ELSE p.cl,
-                               i \in p.ns, p.al, p.ld)]]>>
+                               i \in p.ns, p.al, p.ld, p.als)]]>>
                 \o (IF p.xd THEN <<DataSection(p.tgt)>> ELSE <<>>)]
 
 (***************************************************************************)
